@@ -29,6 +29,9 @@ type hashSite struct {
 	writes  []ssa.CallInstruction
 	inserts []ssa.CallInstruction // IndexInsert / Index.AddDesc of a descriptor whose Digest is the hash
 	descs   []map[string][]ssa.Value
+	// putHelper: the site is the call (create) of a helper that hashes and stores the bytes it is given and returns the
+	// descriptor naming them; ‘stored’ is then the nil edge of the helper's error
+	putHelper *ssa.Function
 }
 
 // isDig reports whether v is the digest of the site (or, for a merged site, one of its branch-local digests).
@@ -171,6 +174,84 @@ func hashSites(c *core.Ctx) []*hashSite {
 				}
 			}
 		}
+		// store-and-describe helpers: a function that hashes its bytes, creates the blob with that digest, and returns
+		// (Descriptor with that digest, error); the descriptor is entered into the index by its callers
+		for _, hs := range append([]*hashSite{}, out...) {
+			if hs.create == nil || len(hs.inserts) > 0 || hs.fn.Parent() != nil {
+				continue
+			}
+			res := hs.fn.Signature.Results()
+			if res.Len() != 2 || !isNamed(res.At(0).Type(), r.TypesPath, "Descriptor") || !an.IsErrorType(res.At(1).Type()) {
+				continue
+			}
+			// every return with a nil error returns a descriptor whose Digest is the hash
+			okRet, nret := true, 0
+			an.Instrs(hs.fn, func(in ssa.Instruction) {
+				ret, ok := in.(*ssa.Return)
+				if !ok || len(ret.Results) != 2 || !retErrNil(ret) {
+					return
+				}
+				nret++
+				ss := structStores(an.Origin(ret.Results[0]))
+				if len(ss) == 0 {
+					if u, ok := an.Strip(ret.Results[0]).(*ssa.UnOp); ok {
+						ss = structStores(u.X)
+					}
+				}
+				good := false
+				for _, dv := range ss["Digest"] {
+					if hs.isDig(dv) {
+						good = true
+					}
+				}
+				if !good {
+					okRet = false
+				}
+			})
+			if !okRet || nret == 0 {
+				continue
+			}
+			bytesIdx := -1
+			for i, p := range hs.fn.Params {
+				if hs.bytes == ssa.Value(p) {
+					bytesIdx = i
+				}
+			}
+			for _, site := range c.P.Callers(hs.fn) {
+				sc, ok := site.(*ssa.Call)
+				if !ok || sc.Call.StaticCallee() != hs.fn {
+					continue
+				}
+				caller := sc.Parent()
+				d := &hashSite{fn: caller, from: sc, dig: sc, create: sc, putHelper: hs.fn}
+				if bytesIdx >= 0 && bytesIdx < len(sc.Call.Args) {
+					d.bytes = an.Origin(sc.Call.Args[bytesIdx])
+				}
+				an.Calls(caller, func(c2 ssa.CallInstruction) {
+					if !isIndexInsert(r, c2) {
+						return
+					}
+					_, args := an.CallArgs(c2)
+					if len(args) == 0 {
+						return
+					}
+					// the descriptor handed to the insert is the helper's result (kept in a local, annotations added)
+					v := an.Strip(args[0])
+					if u, ok := v.(*ssa.UnOp); ok {
+						if whole := an.SingleStore(u.X); whole != nil {
+							v = an.Strip(whole)
+						}
+					}
+					if ex, ok := v.(*ssa.Extract); ok && ex.Tuple == ssa.Value(sc) && ex.Index == 0 {
+						d.inserts = append(d.inserts, c2)
+						d.descs = append(d.descs, map[string][]ssa.Value{})
+					}
+				})
+				if len(d.inserts) > 0 {
+					out = append(out, d)
+				}
+			}
+		}
 		return out
 	})
 }
@@ -197,6 +278,9 @@ func runHashBytes(c *core.Ctx) {
 	}
 	count := map[string]int{}
 	for _, hs := range hashSites(c) {
+		if hs.putHelper != nil {
+			continue // bytes and digest are the helper's business, checked at the helper's own site
+		}
 		name := kn(c.P.FuncName(hs.fn))
 		count[name]++
 		base := fmt.Sprintf("hash:%s#%d", name, count[name])
@@ -359,6 +443,9 @@ func runContentFirst(c *core.Ctx) {
 				if s.errs[0] == an.EE {
 					s.stored = true
 				}
+				if hs.putHelper != nil && s.errs[0] == an.EN {
+					s.stored = true // the helper returned without error: it stored the blob (its own obligation)
+				}
 				for k := 1; k < 4; k++ {
 					if s.closed&(1<<uint(k)) != 0 && s.errs[k] == an.EN {
 						s.stored = true
@@ -504,6 +591,9 @@ func init() {
 						}
 						copy(s.errs[:], vals)
 						if s.errs[0] == an.EE {
+							s.stored = true
+						}
+						if hs.putHelper != nil && s.errs[0] == an.EN {
 							s.stored = true
 						}
 						for k := 1; k < 4; k++ {
